@@ -52,7 +52,12 @@ pub trait ExSeek {
 // ---- A9
 pub assume_specification<T, A: std::alloc::Allocator> [std::vec::Vec::<T, A>::into_boxed_slice] (v: std::vec::Vec<T, A>) -> (b: std::boxed::Box<[T], A>)
     ensures b@ == v@;
+// total number of bytes requested from the reader so far (sum of the lengths in the I/O log)
+pub open spec fn log_sum(l: Seq<(nat, nat)>) -> nat decreases l.len() { if l.len() == 0 { 0 } else { log_sum(l.drop_last()) + l.last().1 } }
 pub mod axs { use vstd::prelude::*;
+pub broadcast proof fn lemma_log_sum_push(l: Seq<(nat, nat)>, x: (nat, nat))
+    ensures #[trigger] crate::vp::log_sum(l.push(x)) == crate::vp::log_sum(l) + x.1
+{ assert(l.push(x).drop_last() =~= l); }
 #[verifier::external_body]
 pub broadcast proof fn axiom_tuple_key_model()
     ensures #[trigger] vstd::std_specs::hash::obeys_key_model::<(usize, usize)>() {}
